@@ -62,7 +62,7 @@ def gen_cases(rng, tier, scale):
     # entered in the middle of a line, after `~` tags, inside blocks
     EMPTIES = ['{{> empty}}', '{{#> empty}}d{{/empty}}', '{{#if no}}x{{/if}}', '{{#each none}}x{{/each}}', '{{e}}', '{{{e}}}',
                '{{#with o}}{{#if no}}x{{/if}}{{/with}}', '{{> empty}}{{> empty}}', '{{#if yes}}{{e}}{{/if}}', '{{#*inline "zz"}}q{{/inline}}']
-    LINES = ['text\n', 'next {{v}}\n', '{{v}} w\n', 'k:{{#if yes}}y{{/if}};\n', '{{#each two}}\n i{{this}}\n{{/each}}\n',
+    LINES = ['text\n', 'next {{v}}\n', '{{v}} w\n', 'k:{{#if yes}}y{{/if}};\n', '{{#if yes}}b{{/if}}|c\n', 'a{{#with o}}i\nj{{/with}}o\n', '{{#each two}}\n i{{this}}\n{{/each}}\n',
              'x{{> leaf}}y\n', '  {{> leaf}}\n', 'p\n\nq\n', '{{#if yes~}}\n  t\n{{/if}}\n', 'last']
     mne = (150 if tier == 'quick' else 3000) * scale
     for k in range(mne):
@@ -73,6 +73,9 @@ def gen_cases(rng, tier, scale):
         which = rng.choice(['mid', 'outer', 'mid'])
         src = parts[which]
         spots = [i for i, ch in enumerate(src) if ch not in ' \t\r\n{}' and (i == 0 or src[i - 1] not in '{#/>~') and src.count('{{', 0, i) == src.count('}}', 0, i)]
+        # ... and directly in front of a closing tag that follows non-blank text (the construct is then the LAST child
+        # of the enclosing block)
+        spots += [i for i in range(1, len(src) - 2) if src[i:i + 3] == '{{/' and src[i - 1] not in ' \t\r\n}']
         if not spots:
             continue
         i = rng.choice(spots)
